@@ -2,6 +2,7 @@ SPECIFICATION Spec
 CONSTANTS
   Alphabet = {"L","SP","LF","CR","LP","RP","ST","SL","X2"}
   MaxLen = 4
+  Prefix = "none"
   Emit = TRUE
 INVARIANTS TypeOK NoTie Tiling LineColDecl Total CodecRoundTrip SemTokOrdered EmitReplay
 CHECK_DEADLOCK FALSE
